@@ -123,7 +123,7 @@ CHECKS.update({
     "C01": {
         "engine": "engines",
         "configs": ["serial", "concurrent"],
-        "thorough_extra_configs": ["async", "concurrent-async"],
+        "thorough_extra_configs": ["async"],
         "level": "exploration",
         "technique": "deterministic protocol simulation: prover node -> serialised proof over a fault-free link -> verifier node, both on a recording public coin; prover on the simulated scheduler / executor; oracles: verifier accepts, coin histories are equal replicas; instances from a randomised AIR generator over every field x hash x option combination, and the bundled examples through their public constructors",
         "level_text": "Seeded exploration of (AIR shape, trace, field, hasher, extension, options) x (worker count, schedule). Completeness must hold for every configuration; the generator has a knob and a reach probe for each feature the statement lists (255 queries, width 255, auxiliary segments, periodic columns, long sequence assertions, several composition columns, exemptions, partitions, every batching method, folding factor and remainder degree).",
